@@ -1,6 +1,7 @@
 package psetv2
 
 import (
+	"sort"
 	"bytes"
 	"encoding/binary"
 	"fmt"
@@ -512,52 +513,80 @@ func (i *Input) getKeyPairs() ([]KeyPair, error) {
 	}
 
 	if len(i.Ripemd160Preimages) > 0 {
-		for k, v := range i.Ripemd160Preimages {
+		keys := make([][20]byte, 0, len(i.Ripemd160Preimages))
+		for k := range i.Ripemd160Preimages {
+			keys = append(keys, k)
+		}
+		sort.Slice(keys, func(a, b int) bool {
+			return bytes.Compare(keys[a][:], keys[b][:]) < 0
+		})
+		for idx := range keys {
 			ripemd160PreimagesKeyPair := KeyPair{
 				Key: Key{
 					KeyType: InputRipemd160,
-					KeyData: k[:],
+					KeyData: keys[idx][:],
 				},
-				Value: v,
+				Value: i.Ripemd160Preimages[keys[idx]],
 			}
 			keyPairs = append(keyPairs, ripemd160PreimagesKeyPair)
 		}
 	}
 
 	if len(i.Sha256Preimages) > 0 {
-		for k, v := range i.Sha256Preimages {
+		keys := make([][32]byte, 0, len(i.Sha256Preimages))
+		for k := range i.Sha256Preimages {
+			keys = append(keys, k)
+		}
+		sort.Slice(keys, func(a, b int) bool {
+			return bytes.Compare(keys[a][:], keys[b][:]) < 0
+		})
+		for idx := range keys {
 			sha256PreimagesKeyPair := KeyPair{
 				Key: Key{
 					KeyType: InputSha256,
-					KeyData: k[:],
+					KeyData: keys[idx][:],
 				},
-				Value: v,
+				Value: i.Sha256Preimages[keys[idx]],
 			}
 			keyPairs = append(keyPairs, sha256PreimagesKeyPair)
 		}
 	}
 
 	if len(i.Hash160Preimages) > 0 {
-		for k, v := range i.Hash160Preimages {
+		keys := make([][20]byte, 0, len(i.Hash160Preimages))
+		for k := range i.Hash160Preimages {
+			keys = append(keys, k)
+		}
+		sort.Slice(keys, func(a, b int) bool {
+			return bytes.Compare(keys[a][:], keys[b][:]) < 0
+		})
+		for idx := range keys {
 			hash160PreimagesKeyPair := KeyPair{
 				Key: Key{
 					KeyType: InputHash160,
-					KeyData: k[:],
+					KeyData: keys[idx][:],
 				},
-				Value: v,
+				Value: i.Hash160Preimages[keys[idx]],
 			}
 			keyPairs = append(keyPairs, hash160PreimagesKeyPair)
 		}
 	}
 
 	if len(i.Hash256Preimages) > 0 {
-		for k, v := range i.Hash256Preimages {
+		keys := make([][32]byte, 0, len(i.Hash256Preimages))
+		for k := range i.Hash256Preimages {
+			keys = append(keys, k)
+		}
+		sort.Slice(keys, func(a, b int) bool {
+			return bytes.Compare(keys[a][:], keys[b][:]) < 0
+		})
+		for idx := range keys {
 			hash256PreimagesKeyPair := KeyPair{
 				Key: Key{
 					KeyType: InputHash256,
-					KeyData: k[:],
+					KeyData: keys[idx][:],
 				},
-				Value: v,
+				Value: i.Hash256Preimages[keys[idx]],
 			}
 			keyPairs = append(keyPairs, hash256PreimagesKeyPair)
 		}
@@ -614,7 +643,7 @@ func (i *Input) getKeyPairs() ([]KeyPair, error) {
 		binary.LittleEndian.PutUint32(requiredHeightLocktimeBytes, i.RequiredHeightLocktime)
 		requiredHeightLocktimeKeyPair := KeyPair{
 			Key: Key{
-				KeyType: InputRequiredTimeLocktime,
+				KeyType: InputRequiredHeightLocktime,
 				KeyData: nil,
 			},
 			Value: requiredHeightLocktimeBytes,
@@ -720,7 +749,7 @@ func (i *Input) getKeyPairs() ([]KeyPair, error) {
 	}
 
 	if i.PeginValue != 0 {
-		var peginValueBytes []byte
+		peginValueBytes := make([]byte, 8)
 		binary.LittleEndian.PutUint64(peginValueBytes, i.PeginValue)
 
 		peginValueKeyPair := KeyPair{
